@@ -141,7 +141,11 @@ pub fn check_run(cfg: &Cfg, run: &Run, cases: &mut Cases, rep: &mut Report) {
             return;
         }
         let unrec = here.iter().any(|(_, f)| *f == FaultKind::Unrecoverable);
-        if here.iter().any(|(k, f)| *f == FaultKind::EnergyJump && role(run, cfg, call, *k) != 2) { logp_tainted = true; }
+        // an EnergyJump is a fault of a trajectory leapfrog only relative to an untainted start state (a second jump on top of a start state
+        // that already carries the lowered log-density cancels: pairs of faults)
+        let tainted_before = logp_tainted;
+        let here: Vec<(u64, FaultKind)> = if tainted_before { here.into_iter().filter(|(_, f)| *f != FaultKind::EnergyJump).collect() } else { here };
+        if cfg.faults.iter().any(|(k, f)| *k >= call.e0 && *k < call.e1 && *f == FaultKind::EnergyJump && (tainted_before || role(run, cfg, call, *k) != 2)) { logp_tainted = true; }
         // the evaluation counter stops at the failing evaluation: a fault at k >= e1 was not reached
         for (k, f) in &here {
             let r = role(run, cfg, call, *k);
